@@ -11,6 +11,7 @@
 import YashModel.Job.Steps
 import YashModel.Job.BuiltinSteps
 import YashModel.Job.ExtSteps
+import YashModel.Job.ApiSteps
 namespace YashModel.Job
 
 /-- The statement of the property on one table, in the existential form of the property text and
@@ -84,6 +85,14 @@ theorem inv_step (s : JobList) (op : Op) (h : Inv s) (hpre : opPre s op = true) 
   | waitEv evs args => exact waitBuiltinEv_inv s evs args h
   | kres arg => exact h
   | bang => exact h
+  | removeIf p r => exact removeIf_inv s _ _ h
+  | extractIf p r => exact removeIf_inv s _ _ h
+  | extractTake n p r => exact extractLoopN_inv _ _ _ _ _ _ _ _ h
+  | addJob pid st => exact insert_inv s _ h hpre
+  | reportOne i => exact reportOne_inv s i h
+  | ajs pid r i name =>
+    simp only [step, addJobIfSuspended_table]
+    exact handleJobStatus_inv s pid r i name h hpre
 
 /-- ★ hence it holds after every history — any length, any number of jobs -/
 theorem inv_reachable (ops : List Op) (s : JobList) (h : Inv s) (hp : PathPre s ops) : Inv (run s ops) := by
@@ -282,6 +291,16 @@ theorem index_stable (s : JobList) (op : Op) (h : Inv s) (hpre : opPre s op = tr
   | waitEv evs args => exact stable_of_sub _ _ h (waitBuiltinEv_sub s evs args)
   | kres arg => exact stable_of_sub _ _ h (Sub.refl s)
   | bang => exact stable_of_sub _ _ h (Sub.refl s)
+  | removeIf p r => exact stable_of_sub _ _ h (extractLoop_sub _ _ _ _ _ _ _)
+  | extractIf p r => exact stable_of_sub _ _ h (extractLoop_sub _ _ _ _ _ _ _)
+  | extractTake n p r => exact stable_of_sub _ _ h (extractLoopN_sub _ _ _ _ _ _ _ _)
+  | addJob pid st => exact insert_stable s _ h
+  | reportOne i => exact stable_of_sub _ _ h (reportOne_sub s i)
+  | ajs pid r i name =>
+    simp only [step, addJobIfSuspended_table, handleJobStatus]
+    split
+    · exact insert_stable s _ h
+    · exact stable_of_sub _ _ h (Sub.refl s)
 
 /-- ★ `%%`/`%+` designate the current job, `%-` the previous job, `%n` the job at index `n-1`;
     on a consistent table `%%` succeeds iff the table is non-empty. -/
@@ -345,6 +364,15 @@ theorem last_async (s : JobList) (op : Op) :
   | waitEv evs args => exact waitBuiltinEv_lastAsync s evs args
   | kres arg => rfl
   | bang => rfl
+  | removeIf p r => exact extractLoop_lastAsync _ _ _ _ _ _ _
+  | extractIf p r => exact extractLoop_lastAsync _ _ _ _ _ _ _
+  | extractTake n p r => exact extractLoopN_lastAsync _ _ _ _ _ _ _ _
+  | addJob pid st =>
+    simp only [step, JobList.add, JobList.insert]; cases lookup s.pids pid <;> rfl
+  | reportOne i => exact reportOne_lastAsync s i
+  | ajs pid r i name =>
+    simp only [step, addJobIfSuspended_table]
+    exact handleJobStatus_lastAsync s pid r i name
 
 /-! ### the precondition is needed and satisfiable; hypotheses are met by non-trivial histories -/
 
